@@ -65,6 +65,74 @@ def check(run, prog, tier):
     run.rule("C18-K", "what is imported belongs to the object: arrays are read from the file into memory, never mapped onto it "
                       "(a mapped array changes with the file, and writes into it rewrite the file)", minimum=8)
     rule_K(run, prog)
+    run.rule("C18-L", "text files keep the shape of what was exported (rank written, nothing squeezed on reading), and an axis "
+                      "filled from a file is changed as a whole (points, start, step, length)", minimum=5)
+    rule_L(run, prog)
+
+
+def rule_L(run, prog):
+    """'... returns the same values, with or without an accompanying axis' (i) A text file holds rows and columns.
+    numpy.loadtxt squeezes what it reads - a (1, N) or (N, 1) matrix comes back as (N,), a 1x1 matrix as a 0-d array -
+    unless told ndmin=2; and a one-dimensional array is written as a column, so the rank has to travel with the file:
+    every text exporter writes it (a header line that names ndim), every text importer of the same class reads with
+    ndmin=2.  (ii) An axis is start, step, length and the points computed from them.  An importer that assigns the points
+    read from the file to the axis object it was given (`axis.data = ...`) assigns start, step and length as well:
+    look-ups on the axis (DFunction.at, locate, nearest) go through start and step."""
+    rid = "C18-L"
+    n = 0
+    for q in ("quantarhei.core.matrixdata.MatrixData", "quantarhei.core.datasaveable.DataSaveable"):
+        cls = prog.cls(q)
+        exp, imp = cls.methods.get("_exportDataToText"), cls.methods.get("_importDataFromText")
+        if exp is None or imp is None:
+            raise AnalysisError("%s: text exporter / importer not found" % cls.name)
+        prog.consulted.add(exp.relpath)
+        for c in walk_no_nested(exp.node):
+            if isinstance(c, ast.Call) and (call_name(c) or "").split(".")[-1] == "savetxt":
+                n += 1
+                hd = [k for k in c.keywords if k.arg == "header"]
+                ok = bool(hd) and "ndim" in norm(hd[0].value)
+                # the table of data with an axis is two-dimensional by construction
+                tab = c.args[1] if len(c.args) > 1 else None
+                if isinstance(tab, ast.Name) and any(isinstance(a_, ast.Assign) and norm(a_.targets[0]) == tab.id and isinstance(a_.value, ast.Call)
+                                                      and (call_name(a_.value) or "").endswith("_data_with_axis") for a_ in walk_no_nested(exp.node)):
+                    ok = True
+                run.obligation(rid, exp.short, ok, key="rank-written:" + norm(c)[:40],
+                               message="%s writes `%s` without recording the number of dimensions: a text file holds rows and columns "
+                                       "only - a one-dimensional array is written as a column, a (1, N) matrix as one row - and the "
+                                       "importer cannot tell them apart" % (exp.short, norm(c)[:60]), loc=exp.loc(c))
+        for c in walk_no_nested(imp.node):
+            if isinstance(c, ast.Call) and (call_name(c) or "").split(".")[-1] == "loadtxt":
+                n += 1
+                nd = [k for k in c.keywords if k.arg == "ndmin"]
+                ok = bool(nd) and isinstance(nd[0].value, ast.Constant) and nd[0].value.value == 2
+                run.obligation(rid, imp.short, ok, key="not-squeezed:" + norm(c)[:40],
+                               message="%s reads with `%s`: numpy.loadtxt drops every dimension of length one - a (1, N) or (N, 1) "
+                                       "matrix comes back as (N,), a 1x1 matrix as a number" % (imp.short, norm(c)[:60]), loc=imp.loc(c))
+    # (ii)
+    for f in prog.all_functions():
+        if ".tests." in f.qualname or ".wizard." in f.qualname or not hasattr(f.node, "args"):
+            continue
+        params = {a.arg for a in f.node.args.args[1:]}
+        stores = {}
+        for st in walk_no_nested(f.node):
+            if isinstance(st, ast.Assign):
+                for t_ in st.targets:
+                    if isinstance(t_, ast.Attribute) and isinstance(t_.value, ast.Name) and t_.value.id in params \
+                            and "axis" in t_.value.id.lower():
+                        stores.setdefault(t_.value.id, {})[t_.attr] = st
+        for obj, att in stores.items():
+            if "data" not in att:
+                continue
+            n += 1
+            prog.consulted.add(f.relpath)
+            missing = [a for a in ("start", "step", "length") if a not in att]
+            run.obligation(rid, f.short, not missing, key="axis-kept-whole:" + obj,
+                           message="%s assigns the points of the axis it was given (%s.data = ...) and leaves %s as they were: the axis "
+                                   "object then answers look-ups (at, locate, nearest) from the old start and step - values are found "
+                                   "at the wrong points or 'out of bounds'" % (f.short, obj, ", ".join(obj + "." + a for a in missing)),
+                           loc=f.loc(att["data"]), sample={"axis": obj})
+    if n < 5:
+        raise AnalysisError("C18-L: only %d text readers/writers and axis assignments found" % n)
 
 
 def rule_K(run, prog):
@@ -148,12 +216,19 @@ def rule_I(run, prog):
                                "an axis of real numbers is truncated next to whole-number data and comes back complex next to complex data"
                                % (norm(dt[0]) if dt else "the default type"), loc=f.loc(a_), sample={"allocation": norm(a_)[:80]})
     g = ds.methods["_extract_data_with_axis"]
-    for st in [n for n in walk_no_nested(g.node) if isinstance(n, ast.Assign) and norm(n.targets[0]).endswith(".data")
-               and isinstance(n.targets[0], ast.Attribute) and norm(n.targets[0].value) == g.node.args.args[2].arg]:
-        ok = isinstance(st.value, ast.Call) and call_name(st.value) == "real"
+    axp = g.node.args.args[2].arg
+    given = [(n, n.value) for n in walk_no_nested(g.node) if isinstance(n, ast.Assign) and norm(n.targets[0]).endswith(".data")
+             and isinstance(n.targets[0], ast.Attribute) and norm(n.targets[0].value) == axp]
+    # or handed, with the axis, to a method of self that fills the axis object
+    given += [(n, n.args[1]) for n in walk_no_nested(g.node) if isinstance(n, ast.Call) and isinstance(n.func, ast.Attribute)
+              and norm(n.func.value) == "self" and len(n.args) == 2 and norm(n.args[0]) == axp]
+    if not given:
+        raise AnalysisError("_extract_data_with_axis: the points of the axis are not taken from the file any more")
+    for st, val in given:
+        ok = isinstance(val, ast.Call) and call_name(val) == "real"
         run.obligation(rid, "DataSaveable._extract_data_with_axis", ok, key="axis-real:" + norm(st)[:40],
                        message="the importer assigns %s to the axis: stored next to complex data the axis column is complex and the "
-                               "axis handed back is too" % norm(st.value), loc=g.loc(st))
+                               "axis handed back is too" % norm(val), loc=g.loc(st))
     sv, ld = ds.methods["_saveMatlab"], ds.methods["_loadMatlab"]
     saves = [c for c in walk_no_nested(sv.node) if isinstance(c, ast.Call) and call_name(c) == "savemat"]
     if not saves:
@@ -361,8 +436,12 @@ def rule_A(run, prog):
                        sample={"allocation": norm(a_)[:80]})
     x = cls.methods["_extract_data_with_axis"]
     st = [norm(s) for s in ast.walk(x.node) if isinstance(s, ast.stmt)]
-    ok = (st.count("axis.data = data[:, 0]") + st.count("axis.data = numpy.real(data[:, 0])")) == 2 \
-        and "return data[:, 1]" in st and "return data[:, 1:]" in st
+    # the axis is taken from column 0 (stored directly or handed to a method of self that fills the axis object)
+    takes = [c for c in ast.walk(x.node) if (isinstance(c, ast.Assign) and norm(c.targets[0]) == "axis.data"
+                                             and norm(c.value) in ("data[:, 0]", "numpy.real(data[:, 0])"))
+             or (isinstance(c, ast.Call) and isinstance(c.func, ast.Attribute) and norm(c.func.value) == "self" and len(c.args) == 2
+                 and norm(c.args[0]) == "axis" and norm(c.args[1]) in ("data[:, 0]", "numpy.real(data[:, 0])"))]
+    ok = len(takes) == 2 and "return data[:, 1]" in st and "return data[:, 1:]" in st
     run.obligation(rid, "DataSaveable._extract_data_with_axis", ok, key="unpack",
                    message="extraction must read the axis from column 0 and the data from the remaining columns",
                    loc=x.loc())
@@ -397,7 +476,7 @@ def rule_C(run, prog):
     for q, cname in ((DS, "DataSaveable"), (MD, "MatrixData")):
         f = prog.cls(q).methods["_importDataFromText"]
         calls = [c for c in walk_no_nested(f.node) if isinstance(c, ast.Call) and call_name(c) == "loadtxt"]
-        plain = [c for c in calls if not c.keywords]
+        plain = [c for c in calls if not any(k.arg == "dtype" for k in c.keywords)]
         cplx = [c for c in calls if any(k.arg == "dtype" and norm(k.value) == "complex" for k in c.keywords)]
         tries = [n for n in walk_no_nested(f.node) if isinstance(n, ast.Try)]
         ok = len(plain) == 1 and len(cplx) == 1 and len(tries) == 1 and \
